@@ -161,13 +161,14 @@ func suiteSequential() bool {
 		"per host; token ownership: one Murmur3 token per host in every order around the ring, or no host has tokens; partitioner announced before or after the hosts (<=2 hosts: both). "+
 		"Policies: round-robin, DC-aware, rack-aware; token-aware over each x shuffle on/off x non-local-replicas fallback on/off x keyspace {metadata unavailable, SimpleStrategy rf 1..3, NTS 1+1, NTS 2+2}. "+
 		"Queries: nil, no routing key, key in the 2nd range (two successive picks), key above the last token (wraps). Plain policies: 3 successive picks. Every iterator is drained. "+
-		"One evaluation = one drained Pick; a state is non-trivial when it has an up host. "+overlapRule(r.Thorough()), maxHosts))
+		"One evaluation = one drained Pick; a state is non-trivial when it has an up host. "+overlapRule(r.Thorough())+eventsRule(r.Thorough()), maxHosts))
 	r.Assume("replicas of a token are Cassandra's (refcass ports, as in C10) on the ring of all hosts the policy was told about, up or down",
 		"a host is 'known to the policy' from AddHost until RemoveHost; HostDown/HostUp are delivered as Session.handleNodeDown/handleNodeConnected do (state set first, then the event)",
 		"with keyspace metadata unavailable the replicas are unknown: the oracle accepts the order demanded for 'no replicas known' or for 'the range owner is the only known replica'",
 		"round-robin rotation: the hosts of one tier are offered in list order starting one position later on each successive Pick (down hosts skipped)",
 		"hosts without tokens next to hosts with tokens are not enumerated (gocql drops peers without tokens before they reach a policy)",
 		"shuffling uses math/rand; the oracle constrains sets and tiers only, so in the single-iteration part the random order needs no control; in the overlapping-iterations part the generator's source is scripted (verified against math/rand at start-up) and the shuffle outcomes are enumerated",
+		"event sequences: a host's up/down mark changes only together with a notification (mark up + AddHost, mark up + HostUp, mark down + HostDown), so 'up and known' is what the policy was told: known = the last of AddHost/RemoveHost for the host was AddHost; HostUp/HostDown/RemoveHost are delivered only for known hosts, AddHost for any host (Session.startPoolFill re-announces a known host)",
 		"overlapping iterations: the property is per query, so each of two iterators in progress on one policy must satisfy the per-query clauses whatever the other one does; nothing is demanded about how the two orders relate")
 
 	type item struct{ n, label int }
